@@ -548,6 +548,17 @@ class Program:
         self._cg = cg
         return cg
 
+    def call_targets(self, f, ev):
+        """Functions the call event `ev` in `f` may invoke."""
+        e = ev['e']
+        n = callee_name(e)
+        if n:
+            return list(self.resolve(n, f))
+        out = []
+        for tn in self.indirect_targets(f, e[1]):
+            out.extend(self.resolve(tn, f))
+        return out
+
     def callers(self):
         if self._callers is None:
             c = defaultdict(set)
